@@ -225,6 +225,10 @@ def fnMenu : Nat → Option UserFn
   | 4 => some fun _ _ => .ok .none
   | 5 => some fun i _ => if i % 2 == 0 then .ok (.tuple [fresh i, fresh (1000 + i)]) else .ok (.list [fresh i])
   | 6 => some fun i _ => .ok (.dict [(.str "b", fresh i), (.str "a", .list [fresh (1000 + i), .none])])
+  -- instances of user classes: 2 is registered in namespace "a" only, 4 in "b" only, 0 globally
+  | 7 => some fun i _ => .ok (.user 2 Option.none .ok [fresh i, fresh (1000 + i)])
+  | 8 => some fun i _ => .ok (.user 4 Option.none .ok [fresh i, fresh (1000 + i)])
+  | 9 => some fun i a => .ok (.user 0 (some (.int 1)) .ok [.tuple [fresh i], firstObj a])
   | _ => Option.none
 
 /-- class universe of the `regsm` stream (mirrored in harness/regsm_impl.py) -/
